@@ -177,6 +177,15 @@ class Analysis:
         if p in st.env:
             return st.env[p]
         s = p + "@0"
+        if "[" in p:
+            # an array element addressed by a variable whose value is a known constant here (an unrolled counting loop): the
+            # entry symbol names the element, not the expression - `len[i]` is len[0] in one iteration and len[1] in the next
+            import re as _re
+
+            def conc(m):
+                cur = st.env.get(m.group(1))
+                return "[%d]" % cur.k if cur is not None and cur.is_const() else m.group(0)
+            s = _re.sub(r"\[([A-Za-z_]\w*)\]", conc, p) + "@0"
         v = Lin.sym(s)
         st.env[p] = v
         if self.is_unsigned(n) and s not in st.nonneg:
@@ -251,6 +260,29 @@ class Analysis:
                     self.last_wrap = s
                     return None
             return r
+        if s.k in ("BinaryOperator", "CompoundAssignOperator") and s.get("op") in ("%", "%=") and self.is_unsigned(s) and \
+                (s.get("bits") or 0) >= 32 and s.id not in getattr(st, "modseen", ()):
+            # ring arithmetic: `(a - b) % m` on unsigned operands is the mathematical (a - b) mod m only if a - b does not
+            # wrap (or m divides 2^bits); a wrapped difference is off by 2^bits mod m
+            st.modseen = set(getattr(st, "modseen", ())) | {s.id}
+            wit = None
+            mval = self.value(st, s.child(1)) if len(s.ch) > 1 else None
+            if mval is not None and not mval.is_const():
+                q3 = st.clone()
+                q3.cons.append(le(mval, Lin.const(3)))
+                q3.cons.append(le(Lin.const(3), mval))          # a modulus that does not divide 2^bits
+                if not fm_infeasible(q3.cons):
+                    wit = self.wrap_witness(q3, s.child(0))
+            elif mval is not None and mval.is_const() and mval.k > 0 and (mval.k & (mval.k - 1)) == 0:
+                wit = None                                       # constant power of two: wrapping is harmless
+                mval = "pow2"
+            if wit is None and mval != "pow2":
+                wit = self.wrap_witness(st, s.child(0))
+            if wit is not None:
+                site = self.sites.setdefault(s.id, Site(s, "arith", s.src))
+                site.results.append((False, True, False,
+                                     "the dividend of this modulo contains an unsigned subtraction that can wrap: the remainder is then "
+                                     "off by 2^%d mod the modulus (right only when the modulus is a power of two)" % s["bits"], None, wit))
         if s.k == "BinaryOperator" and s.get("op") == "*":
             a, b = self.value(st, s.child(0)), self.value(st, s.child(1))
             if a is not None and b is not None:
@@ -645,6 +677,8 @@ class Analysis:
             if d is not None:
                 cur = st.slen.get(d[0])
                 sl = src_len(1)
+                if cur is not None and cur[0] == "le" and entails(st.cons, le(cur[1], d[1])) and entails(st.cons, le(d[1], cur[1])):
+                    cur = ("eq", d[1])        # a NUL is known exactly where the destination starts: it is the empty string
                 if cur is None or cur[0] != "eq" or nn is None:
                     self.oblige(st, n, "call", d[0], None, None, n.src + "  (length of the destination string unknown)")
                 else:
@@ -748,6 +782,8 @@ class Analysis:
                             wit = {va["decl"]["name"]: radix ** (ext.k - 1)}
                             text = ("strlen(%s) after `%s`: a value with %d digits fills the %d-byte window completely, the "
                                     "formatter stores no NUL, and the scan runs past the buffer" % (args[0].src, call.src[:60], ext.k, ext.k))
+                    if nw is not None:
+                        ext, call = nw
                         goal = ext           # ext <= 0 : the formatter wrote nothing, not even a NUL
                         syms = set(goal.syms())
                         if not (syms & st.havoc) and not (syms & st.dropped):
@@ -1051,12 +1087,88 @@ class Analysis:
         self.walk(self.fn.entry, st, None)
         return self.sites
 
-    def walk(self, b, st, stop_head, collect=None):
+    def unrollable(self, st, head):
+        """loop `for (i = c0; i < N [&& ...]; i++)` with N a constant <= 4, i a local scalar whose current value is a known
+        constant, stepped only by ++ / += 1 inside the loop"""
+        cache = self.__dict__.setdefault("_unroll", {})
+        info = cache.get(head.id)
+        if info is None:
+            info = False
+            for bid in self.loops[head.id]:
+                blk = self.fn.blocks[bid]
+                cnd = blk.cond
+                if cnd is None or cnd.k != "BinaryOperator" or cnd.get("op") != "<":
+                    continue
+                l_ = cnd.child(0).strip_all_casts()
+                n_ = C.const_of(cnd.child(1))
+                if l_.k != "DeclRefExpr" or l_["decl"]["kind"] != "local" or n_ is None or not (0 < n_ <= 4):
+                    continue
+                v = l_["decl"]["name"]
+                # the test must leave the loop when false (its false edge goes outside the body)
+                if len(blk.succs) != 2 or blk.succs[1] is None or blk.succs[1].id in self.loops[head.id]:
+                    continue
+                inside = [nn for nn, t in C.stores(self.fn) if t.get("path") == v and self.fn.where.get(nn.id) and
+                          self.fn.where[nn.id][0].id in self.loops[head.id]]
+                incs = [nn for nn in inside if (nn.k == "UnaryOperator" and nn.get("op") == "++") or
+                        (nn.get("op") == "+=" and C.const_of(nn.child(1)) == 1)]
+                addr = any(x.k == "UnaryOperator" and x.get("op") == "&" and x.child(0).strip_all_casts().get("path") == v
+                           for x in self.fn.nodes.values())
+                if incs and len(incs) == len(inside) and not addr:
+                    info = (v, n_)
+                    break
+            cache[head.id] = info
+        if not info:
+            return False
+        cur = st.env.get(info[0])
+        return cur is not None and cur.is_const() and 0 <= cur.k <= info[1]
+
+    def split_cast(self, st, e):
+        """an assignment / initialisation whose right-hand side is a signed expression converted to an unsigned type of at
+        least 32 bits, the sign of which is not known: follow both the non-negative case (identity) and the negative case
+        (value + 2^bits) - the same treatment as an unsigned subtraction that may wrap.  Only the outermost conversion of
+        the stored value is split (`i_to = param.len - 2`)."""
+        rhs = None
+        if e.k == "BinaryOperator" and e.get("op") == "=" and len(e.ch) > 1:
+            rhs = e.child(1)
+        elif e.k == "DeclStmt":
+            for d in e.get("decls", []):
+                if "init" in d:
+                    rhs = self.fn.nodes[d["init"]]
+        if rhs is None:
+            return [st]
+        x = rhs
+        while x.k == "ParenExpr":
+            x = x.child(0)
+        if x.k not in ("ImplicitCastExpr", "CStyleCastExpr") or x.get("ck") != "IntegralCast" or x.id in st.vals:
+            return [st]
+        inner = x.child(0)
+        if not (inner.get("tk") == "int" and x.get("tk") == "int" and inner.get("signed") and x.get("signed") is False
+                and (x.get("bits") or 0) >= 32):
+            return [st]
+        v0 = self.value(st, inner)
+        if v0 is None or v0.is_const() or entails(st.cons, v0.scale(-1)):
+            return [st]
+        q1, q2 = st.clone(), st.clone()
+        q1.cons.append(v0.scale(-1))                       # v0 >= 0
+        q1.vals[x.id] = v0
+        q2.cons.append(lt(v0, Lin.const(0)))
+        q2.vals[x.id] = v0 + Lin.const(1 << x["bits"])
+        return [q for q in (q1, q2) if not fm_infeasible(q.cons)]
+
+    def walk(self, b, st, stop_head, collect=None, i0=0):
         """DFS over blocks. stop_head: when reaching this loop head again, record the state in
         `collect` and stop (used by the invariant check)"""
         fn = self.fn
         self.npaths += 0
-        if b.id in self.loops:
+        if i0 == 0 and b.id in self.loops and self.unrollable(st, b):
+            # a counting loop with a small constant bound whose counter is a known constant here: executed iteration by
+            # iteration (no summary, no invariant), so that every path through it stays concrete enough for a witness
+            st.vals = {}          # values of expression nodes evaluated in the previous iteration are stale
+            st.pvals = {}
+            for h in self.loops[b.id]:
+                if h != b.id and h in self.loops:
+                    st.visits.pop(h, None)      # inner loops start afresh: their invariants are established per iteration
+        elif i0 == 0 and b.id in self.loops:
             cnt = st.visits.get(b.id, 0)
             if stop_head is not None and b.id == stop_head and cnt >= 1:
                 collect.append(st)
@@ -1077,7 +1189,13 @@ class Analysis:
                 finally:
                     self.infer_depth -= 1
             st.visits[b.id] = cnt + 1
-        for e in b.elems:
+        for idx in range(i0, len(b.elems)):
+            e = b.elems[idx]
+            forks = self.split_cast(st, e) if self.infer_depth == 0 else [st]
+            if len(forks) > 1:
+                for fq in forks:
+                    self.walk(b, fq, stop_head, collect, i0=idx)
+                return
             self.do_elem(st, e)
         if b.id == fn.exit.id:
             self.npaths += 1
